@@ -6,7 +6,7 @@
                                 nb_a_large) is the partition of (B, L, E), L and E are in the range in
                                 which block_length's u64 arithmetic cannot overflow;
      - every initialised block has its decoder unless it is completed. *)
-From FluteV Require Import Model.ObjRecv Model.Recv Proofs.PartitionProofs.
+From FluteV Require Import Model.ObjRecv Model.Recv Proofs.PartitionProofs Proofs.D48Step.
 From Coq Require Import Lia.
 Open Scope N_scope.
 
@@ -560,7 +560,8 @@ Section S.
 
   Definition or_attach_tail (o1 : objrecv) (c : ctx) : bool * objrecv * ctx :=
     let o2 := init_partition o1 in
-    let (o3, c3) := init_writer E o2 c in
+    let (o3a, c3a) := init_writer E o2 c in
+    let (o3, c3) := d48_step o3a c3a in
     let (o4, c4) := push_from_cache E o3 c3 in
     let '(o5, c5) := match write_blocks E (S (length (r_blocks o4))) 0 o4 c4 with
                      | (ROk x, cx) => (x, cx)
@@ -569,13 +570,21 @@ Section S.
     let (o6, c6) := push_from_cache E o5 c5 in
     (true, o6, c6).
 
+  Lemma d48_step_keeps o c : keeps o (fst (d48_step o c)) /\ np c (snd (d48_step o c)).
+  Proof.
+    destruct (d48_step_cases o c) as [-> | ->]; [|apply complete_keeps].
+    cbn [fst snd]. split; [apply keeps_refl|apply np_refl].
+  Qed.
+
   Lemma or_attach_tail_total o1 c :
     pinv o1 -> inv (snd (fst (or_attach_tail o1 c))) /\ np c (snd (or_attach_tail o1 c)).
   Proof.
     intros P. unfold or_attach_tail.
     pose proof (init_partition_inv o1 P) as I2. set (o2 := init_partition o1) in *.
-    destruct (init_writer_keeps o2 c) as [K3 N3]. destruct (init_writer E o2 c) as [o3 c3]. cbn [fst snd] in *.
-    pose proof (inv_keeps _ _ I2 K3) as I3.
+    destruct (init_writer_keeps o2 c) as [K3a N3a]. destruct (init_writer E o2 c) as [o3a c3a]. cbn [fst snd] in *.
+    pose proof (inv_keeps _ _ I2 K3a) as I3a.
+    destruct (d48_step_keeps o3a c3a) as [K3b N3b]. destruct (d48_step o3a c3a) as [o3 c3]. cbn [fst snd] in *.
+    pose proof (inv_keeps _ _ I3a K3b) as I3. pose proof (np_trans _ _ _ N3a N3b) as N3.
     destruct (push_from_cache_keeps o3 c3 I3) as [K4 N4]. destruct (push_from_cache E o3 c3) as [o4 c4]. cbn [fst snd] in *.
     pose proof (inv_keeps _ _ I3 K4) as I4.
     destruct (write_blocks_keeps (S (length (r_blocks o4))) 0 o4 c4) as [K5 N5].
